@@ -225,6 +225,8 @@ class Scheduler:
         finally:
             self.active = False
             SCHED = prev
+            if os.environ.get('FBVERIF_TRACE_SWITCHES'):
+                print('SWITCHES steps=%d %r' % (self.step, self.switches))
 
     # ---- fork/join style (C17): the calling thread stays managed and keeps running
     def adopt_current(self, name='T0'):
